@@ -57,7 +57,21 @@ fn issuer_kids() -> Vec<KeyIdSpec> {
 pub fn contexts(all: bool) -> Vec<Ctx> {
     let mut v = vec![stub_self_ctx(Alg::Ed25519, 1)];
     #[cfg(feature = "crypto")]
-    v.push(csr_pub_ctx(&load_zoo(), &issuer_dns()[2], &KeyIdSpec::Sha512));
+    {
+        let zoo = load_zoo();
+        v.push(csr_pub_ctx(&zoo, &issuer_dns()[2], &KeyIdSpec::Sha512));
+        v.push(via_csr_ctx(&zoo, KeyKind::Ed25519, Alg::Ed25519, &issuer_dns()[0], &KeyIdSpec::Sha384));
+        v.push(via_csr_ctx(&zoo, KeyKind::P384, Alg::EcP384, &issuer_dns()[2], &KeyIdSpec::Pre(vec![3, 3])));
+    }
+    // every subject key algorithm through every public-key source (the key bytes need not be a valid point)
+    for alg in backend_algs() {
+        for src in ["pair", "spki", "custom"] {
+            if alg == Alg::Ed25519 {
+                continue;
+            }
+            v.push(stub_issuer_ctx(Alg::Ed25519, &issuer_dns()[0], &KeyIdSpec::Sha256, alg, src));
+        }
+    }
     for (i, dn) in issuer_dns().iter().enumerate() {
         for (j, kid) in issuer_kids().iter().enumerate() {
             for src in ["pair", "spki", "custom"] {
@@ -496,6 +510,7 @@ fn eval_with_issuer(st: &CertState, subject: &Ctx, issuer_ctx: &Ctx) -> CertEval
         SubjectSrc::Pair(k) => params.signed_by(k, &i.cert, &i.key),
         SubjectSrc::Spki(s) => params.signed_by(s, &i.cert, &i.key),
         SubjectSrc::CsrPub(s) => params.signed_by(s, &i.cert, &i.key),
+        SubjectSrc::ViaCsr(_) => unreachable!(),
     });
     let mut ev = CertEval { der: None, tbs: None, findings: vec![], err: None, panic: None, unconstructible: None, transitions: 15 };
     match r {
